@@ -681,8 +681,8 @@ Proof.
     intros evs E q. inversion E; subst. cbn. destruct (Nat.eqb n q); reflexivity.
   - unfold ret in H. inversion H; subst. repeat split; try constructor; try discriminate.
     intros evs E q. inversion E; subst. cbn. destruct (Nat.eqb n q); reflexivity.
-  - destruct (SD _ _ _ _ H) as (K & G & N & EV). split; [exact K|]. split; [exact G|]. split; [exact N|].
-    split; [|reflexivity]. intros evs E q. rewrite (EV _ E). cbn. destruct (Nat.eqb n q); reflexivity.
+  - unfold ret in H. inversion H; subst. repeat split; try constructor; try discriminate.
+    intros evs E q. inversion E; subst. cbn. destruct (Nat.eqb n q); reflexivity.
   - unfold ret in H. inversion H; subst. repeat split; try constructor; try discriminate.
     intros evs E q. inversion E; subst. cbn. destruct (Nat.eqb n q); reflexivity.
   - destruct (SD _ _ _ _ H) as (K & G & N & EV). split; [exact K|]. split; [exact G|]. split; [exact N|].
